@@ -53,6 +53,11 @@ def build(spec):
     al = sorted(set(gen.random_alphas(rng, k=3)))
     if len(al) < 2:
         al = [0.7, 0.9]
+    if i % 4 == 1:
+        # levels that agree to two or three decimals (0.99 and 0.995 are both in use on election night): each must
+        # still be reported as if it had been requested alone
+        al = [[0.99, 0.995], [0.9, 0.901], [0.696, 0.7, 0.704], [0.95, 0.9501], [0.5, 0.5004, 0.99]][(i // 4) % 5]
+        el.meta["close_levels"] = True
     call["prediction_intervals"] = [al[j] for j in rng.permutation(len(al))]
     return el, feed, status, call, rng
 
@@ -63,6 +68,12 @@ def subrequests(call, rng):
     c = copy.deepcopy(call)
     c["prediction_intervals"] = [al[int(rng.integers(0, len(al)))]]
     subs.append(("one-level", c))
+    if len(al) >= 2 and min(abs(a - b) for a in al for b in al if a != b) < 0.0051:
+        for a in al:  # close levels: every level alone
+            if [a] != c["prediction_intervals"]:
+                c2 = copy.deepcopy(call)
+                c2["prediction_intervals"] = [a]
+                subs.append(("one-level", c2))
     c = copy.deepcopy(call)
     c["prediction_intervals"] = list(reversed(al))
     subs.append(("reversed-levels", c))
